@@ -9,21 +9,22 @@ import (
 
 // Anchors of the retry client, resolved by role with the name as a hint.
 type retryAnchors struct {
-	RC         *types.Named
-	RetryQueue *types.Var // field of type []retryFn
-	TaskQueue  *types.Var // field of type []func(context.Context, *BaseClient)
-	NewRetry   *types.Var // bool flag set when a request failed (newRetryByError)
-	SubEst     *types.Var // field of type subscriptions
-	ChTask     *types.Var
-	ChConnErr  *types.Var
-	Cli        *types.Var
-	Handler    *types.Var
-	Mu         *types.Var
-	PushTask   *ssa.Function
-	ReqCtx     *ssa.Function
-	WithReqCtx *ssa.Function
-	OnError    *ssa.Function
-	problems   []string
+	RC           *types.Named
+	RetryQueue   *types.Var // field of type []retryFn
+	TaskQueue    *types.Var // field of type []func(context.Context, *BaseClient)
+	NewRetry     *types.Var // bool flag set when a request failed (newRetryByError)
+	SubEst       *types.Var // field of type subscriptions
+	ChTask       *types.Var
+	ChConnErr    *types.Var
+	Cli          *types.Var
+	Handler      *types.Var
+	Mu           *types.Var
+	PushTask     *ssa.Function
+	ReqCtx       *ssa.Function
+	WithReqCtx   *ssa.Function
+	OnError      *ssa.Function
+	OnErrorField *types.Var // the exported callback field (the report may call it directly)
+	problems     []string
 }
 
 func (c *Ctx) retryAnchors() *retryAnchors {
@@ -38,7 +39,7 @@ func (c *Ctx) retryAnchors() *retryAnchors {
 		f := st.Field(i)
 		ts := types.TypeString(f.Type(), func(p *types.Package) string { return "" })
 		switch {
-		case ts == "[]retryFn":
+		case ts == "[]retryFn" || isRetryFnSlice(f.Type()):
 			a.RetryQueue = f
 		case isTaskSlice(f.Type()):
 			a.TaskQueue = f
@@ -56,6 +57,32 @@ func (c *Ctx) retryAnchors() *retryAnchors {
 			a.Handler = f
 		case f.Name() == aliasField("RetryClient", "mu"):
 			a.Mu = f
+		}
+	}
+	if a.RetryQueue == nil {
+		// the queue (and possibly the flag) grouped into a by-value struct field of a package type
+		for i := 0; i < st.NumFields(); i++ {
+			inner, ok := st.Field(i).Type().Underlying().(*types.Struct)
+			if !ok {
+				continue
+			}
+			if n, isNamed := st.Field(i).Type().(*types.Named); !isNamed || n.Obj().Pkg() != c.TPkg {
+				continue
+			}
+			for j := 0; j < inner.NumFields(); j++ {
+				g := inner.Field(j)
+				if isRetryFnSlice(g.Type()) {
+					a.RetryQueue = g
+				}
+			}
+			if a.RetryQueue != nil && a.NewRetry == nil {
+				for j := 0; j < inner.NumFields(); j++ {
+					g := inner.Field(j)
+					if b, ok := g.Type().Underlying().(*types.Basic); ok && b.Kind() == types.Bool {
+						a.NewRetry = g
+					}
+				}
+			}
 		}
 	}
 	if a.NewRetry == nil {
@@ -91,7 +118,8 @@ func (c *Ctx) retryAnchors() *retryAnchors {
 	chk(a.ChTask != nil, "task wake-up channel of RetryClient")
 	chk(a.PushTask != nil, "(*RetryClient).pushTask")
 	chk(a.ReqCtx != nil, "(*RetryClient).requestContext")
-	chk(a.OnError != nil, "(*RetryClient).onError")
+	a.OnErrorField = c.structField("RetryClient", "OnError")
+	chk(a.OnError != nil || a.OnErrorField != nil, "(*RetryClient).onError / the OnError callback field")
 	return a
 }
 
@@ -143,6 +171,7 @@ type appendElem struct {
 
 // appendChain decomposes v = append(append(base, a), b...) ... into base and the appended groups in order.
 func (c *Ctx) appendChain(v ssa.Value) (ssa.Value, []appendElem, bool) {
+	v = stripConv(v) // a named slice type converts to/from its underlying type around append
 	call, ok := v.(*ssa.Call)
 	if !ok {
 		// a slice literal []T{a, b} as the innermost base: fresh, with its elements as the first appended group
@@ -168,10 +197,13 @@ func (c *Ctx) appendChain(v ssa.Value) (ssa.Value, []appendElem, bool) {
 	if !ok {
 		return nil, nil, false
 	}
-	arg := call.Call.Args[1]
-	// varargs: slice of a fresh [n]T alloc whose elements are stored individually
+	arg := stripConv(call.Call.Args[1])
+	if isNilConst(arg) {
+		return base, elems, true // append(x, nil...) adds nothing
+	}
+	// varargs / a slice literal passed on as `xs...`: slice of a fresh [n]T alloc whose elements are stored individually
 	if sl, ok := arg.(*ssa.Slice); ok && sl.Low == nil && sl.High == nil {
-		if a, ok := sl.X.(*ssa.Alloc); ok && a.Comment == "varargs" {
+		if a, ok := sl.X.(*ssa.Alloc); ok && (a.Comment == "varargs" || a.Comment == "slicelit") {
 			arr := a.Type().Underlying().(*types.Pointer).Elem().Underlying().(*types.Array)
 			vals := make([]ssa.Value, arr.Len())
 			for _, u := range *a.Referrers() {
@@ -258,6 +290,72 @@ func isTaskSlice(t types.Type) bool {
 	if !ok {
 		return false
 	}
-	sig, ok := sl.Elem().(*types.Signature)
+	sig, ok := sl.Elem().Underlying().(*types.Signature)
 	return ok && sig.Params().Len() == 2 && sig.Results().Len() == 0
+}
+
+// isRetryFnSlice: a slice (possibly a named slice type) of retry handles.
+func isRetryFnSlice(t types.Type) bool {
+	sl, ok := t.Underlying().(*types.Slice)
+	if !ok {
+		return false
+	}
+	return typeName(sl.Elem()) == "retryFn"
+}
+
+// reportsError: `in` reports errV to the application: a call of the onError method, or a call of the OnError callback field
+// itself (then the report is conditional on the callback being registered: exempt returns the edges on which it is nil).
+func (c *Ctx) reportsError(a *retryAnchors, in ssa.Instruction, errV ssa.Value) bool {
+	call, ok := in.(*ssa.Call)
+	if !ok || call.Call.IsInvoke() {
+		return false
+	}
+	if a.OnError != nil && c.StaticCalleeOf(&call.Call) == a.OnError && len(call.Call.Args) == 2 {
+		return c.errOrigin(call.Call.Args[1]) == errV
+	}
+	if a.OnErrorField != nil && len(call.Call.Args) == 1 {
+		if _, isCB := isLoadOfField(call.Call.Value, a.OnErrorField); isCB {
+			return c.errOrigin(call.Call.Args[0]) == errV
+		}
+	}
+	return false
+}
+
+// noCallbackEdges: edges of f on which the OnError callback field is nil (nothing to report to).
+func (c *Ctx) noCallbackEdges(a *retryAnchors, f *ssa.Function) func(*ssa.BasicBlock, int) bool {
+	type ek struct {
+		b *ssa.BasicBlock
+		k int
+	}
+	set := map[ek]bool{}
+	if a.OnErrorField != nil {
+		for _, b := range f.Blocks {
+			iff := blockIf(b)
+			if iff == nil {
+				continue
+			}
+			bin, ok := iff.Cond.(*ssa.BinOp)
+			if !ok || (bin.Op != token.NEQ && bin.Op != token.EQL) {
+				continue
+			}
+			var v ssa.Value
+			switch {
+			case isNilConst(bin.Y):
+				v = bin.X
+			case isNilConst(bin.X):
+				v = bin.Y
+			default:
+				continue
+			}
+			if _, isCB := isLoadOfField(v, a.OnErrorField); !isCB {
+				continue
+			}
+			if bin.Op == token.NEQ {
+				set[ek{b, 1}] = true
+			} else {
+				set[ek{b, 0}] = true
+			}
+		}
+	}
+	return func(b *ssa.BasicBlock, k int) bool { return set[ek{b, k}] }
 }
